@@ -14,8 +14,8 @@ from . import prog, sched
 from .prog import dec
 
 
-def reference(P: Dict[str, Any], args: List[Any]) -> Tuple[Any, Optional[BaseException], prog.Ref]:
-    R = prog.Ref()
+def reference(P: Dict[str, Any], args: List[Any], run_debug: bool = False) -> Tuple[Any, Optional[BaseException], prog.Ref]:
+    R = prog.Ref(run_debug=run_debug)
     try:
         return prog.ref_run(P, [dec(a) for a in args], R), None, R
     except (prog.RefError, prog.MissingArg, KeyError, IndexError) as e:
@@ -47,25 +47,32 @@ def apply_config(b: prog.Built, P: Dict[str, Any], via: str) -> None:
 
 def run_config(P: Dict[str, Any], args: List[Any], cfg: Dict[str, Any]) -> Tuple[Any, Optional[BaseException], Optional[sched.Exec], Optional[prog.Built]]:
     """Build P under cfg and call it once.  Returns (value, exception, exec, built)."""
+    import tawazi
+
     via = cfg.get("via", "decorator")
+    old_dbg = tawazi.cfg.RUN_DEBUG_NODES
+    tawazi.cfg.RUN_DEBUG_NODES = bool(cfg.get("debug"))
     try:
-        b = prog.build(P, is_async=bool(cfg.get("async")), mc=cfg.get("mc", 1), decorate_attrs=(via == "decorator"))
-        if via != "decorator":
-            apply_config(b, P, via)
-    except BaseException as e:  # noqa: BLE001
-        if isinstance(e, KeyboardInterrupt):
-            raise
-        return None, e, None, None
-    ex = sched.Exec(cfg.get("mode", "free"), choices=cfg.get("choices", ()), sleeps=cfg.get("sleeps"))
-    a = [dec(x) for x in args]
-    try:
-        with ex:
-            val = asyncio.run(b.dag(*a)) if cfg.get("async") else b.dag(*a)
-        return val, None, ex, b
-    except BaseException as e:  # noqa: BLE001
-        if isinstance(e, KeyboardInterrupt):
-            raise
-        return None, e, ex, b
+        try:
+            b = prog.build(P, is_async=bool(cfg.get("async")), mc=cfg.get("mc", 1), decorate_attrs=(via == "decorator"))
+            if via != "decorator":
+                apply_config(b, P, via)
+        except BaseException as e:  # noqa: BLE001
+            if isinstance(e, KeyboardInterrupt):
+                raise
+            return None, e, None, None
+        ex = sched.Exec(cfg.get("mode", "free"), choices=cfg.get("choices", ()), sleeps=cfg.get("sleeps"))
+        a = [dec(x) for x in args]
+        try:
+            with ex:
+                val = asyncio.run(b.dag(*a)) if cfg.get("async") else b.dag(*a)
+            return val, None, ex, b
+        except BaseException as e:  # noqa: BLE001
+            if isinstance(e, KeyboardInterrupt):
+                raise
+            return None, e, ex, b
+    finally:
+        tawazi.cfg.RUN_DEBUG_NODES = old_dbg
 
 
 def obs_counter(obs: List[Any]) -> Counter:
@@ -94,7 +101,8 @@ def configs(draw: Any, n: int = 3, sites: Optional[List[str]] = None, modes: Any
     for i in range(n):
         c: Dict[str, Any] = {"async": draw(st.booleans()), "mc": draw(st.integers(1, 5)),
                              "mode": draw(st.sampled_from(list(modes))),
-                             "via": draw(st.sampled_from(["decorator", "decorator", "dict", "yaml", "json"]))}
+                             "via": draw(st.sampled_from(["decorator", "decorator", "dict", "yaml", "json"])),
+                             "debug": draw(st.booleans())}
         if c["mode"] == "ctl":
             c["choices"] = draw(st.lists(st.integers(0, 2**16), max_size=10))
         elif sites:
